@@ -234,7 +234,7 @@ def sany_all():
     bad = []
     try:
         for f in sorted(glob.glob(os.path.join(s.dir, "*.tla"))):
-            if os.path.basename(f) in ("CacheLayoutProofs.tla", "CacheHistoryProofs.tla"):
+            if os.path.basename(f) in ("CacheLayoutProofs.tla", "CacheHistoryProofs.tla", "LineArithProofs.tla"):
                 continue        # needs the TLAPS standard module: checked by tlapm in C10 / C11
             p = subprocess.run(["java", "-cp", JAR, "tla2sany.SANY", os.path.basename(f)], cwd=s.dir,
                                stdout=subprocess.PIPE, stderr=subprocess.STDOUT, text=True)
